@@ -1,2 +1,934 @@
-// Package c05: monitor for property C05 (see DESIGN.md section 2).
+// Package c05: read-write transactions are serializable in commit order (MVCC).
+//
+// Goroutines run PRNG transaction programs (point reads, filtered reads, prefix reads,
+// range scans, prefix fingerprints, sets, deletes, transient sets) against one store with
+// arbitrarily stale snapshots, next to write-only committers, read-only readers, index
+// maintenance and schedule perturbation at the verifhook points. Everything observed at the
+// API boundary is logged; after every round the oracle replays the committed transactions in
+// header-id order on a multi-version reference map and compares every logged read.
 package c05
+
+import (
+	"bytes"
+	"context"
+	"crypto/sha256"
+	"encoding/json"
+	"errors"
+	"fmt"
+	"math/rand/v2"
+	"os"
+	"sort"
+	"strings"
+	"sync"
+	"time"
+
+	"github.com/codenotary/immudb/embedded/store"
+
+	"verifharness/internal/fw"
+	"verifharness/internal/hook"
+	"verifharness/internal/kvmodel"
+	"verifharness/internal/sth"
+)
+
+func init() {
+	fw.RegisterMonitor("C05", "exploration", Run)
+	fw.RegisterIsolated("c05-case", runCase)
+}
+
+type caseSpec struct {
+	Name         string
+	NIdx         int
+	NKeys        int
+	Rounds       int
+	NodeSize     int
+	FlushThld    int
+	ReadSetLimit int
+	Embedded     bool
+	Perturb      float64
+	MaxSleepUs   int
+	MaintPct     int // share of rounds with index maintenance in the background
+}
+
+func genCase(r *rand.Rand, i, rounds int) caseSpec {
+	cs := caseSpec{
+		Name:         fmt.Sprintf("case%d", i),
+		NIdx:         1 + i%2,
+		NKeys:        8 + r.IntN(17),
+		Rounds:       rounds,
+		NodeSize:     []int{512, 512, 4096}[r.IntN(3)],
+		FlushThld:    []int{8, 40, 100000}[r.IntN(3)],
+		ReadSetLimit: []int{24, 100000, 100000}[r.IntN(3)],
+		Embedded:     r.IntN(3) == 0,
+		Perturb:      []float64{0.15, 0.35, 0.6}[r.IntN(3)],
+		MaxSleepUs:   []int{200, 1000, 3000}[r.IntN(3)],
+		MaintPct:     []int{0, 30, 60}[i%3],
+	}
+	return cs
+}
+
+func (cs caseSpec) String() string {
+	b, _ := json.Marshal(cs)
+	return string(b)
+}
+
+func (cs caseSpec) options() *store.Options {
+	o := sth.SmallOpts().
+		WithMaxConcurrency(40).WithMaxTxEntries(40).WithMaxKeyLen(32).WithMaxValueLen(64).
+		WithMultiIndexing(cs.NIdx == 2).WithMVCCReadSetLimit(cs.ReadSetLimit).
+		WithEmbeddedValues(cs.Embedded).WithMaxActiveTransactions(1000)
+	o.WithIndexOptions(o.IndexOpts.WithMaxNodeSize(cs.NodeSize).WithFlushThld(cs.FlushThld).WithSyncThld(max(cs.FlushThld, 200)).
+		WithCompactionThld(1).WithMaxActiveSnapshots(200))
+	return o
+}
+
+type maintEvent struct {
+	T0, T1 uint64
+	Op     string
+	Err    string `json:",omitempty"`
+}
+
+type runner struct {
+	c         *fw.Ctx
+	cs        caseSpec
+	st        *store.ImmuStore
+	ks        *keyspace
+	nt        *notes
+	model     *kvmodel.Model
+	done      uint64            // ids replayed so far
+	compacted int               // successful CompactIndexes calls so far
+	byID      map[uint64]*txLog // committed transactions of all rounds
+	abort     bool
+}
+
+func (rn *runner) viol(sig, detail string, round int, logs []*txLog, maint []maintEvent) {
+	b, _ := json.MarshalIndent(map[string]any{"case": rn.cs, "round": round, "transactions": logs, "maintenance": maint}, "", " ")
+	rn.c.Violation(sig, fmt.Sprintf("[%s round %d] %s", rn.cs.Name, round, detail), map[string][]byte{"round.json": b})
+}
+
+func runCase(c *fw.Ctx, data []byte) {
+	var cs caseSpec
+	if err := json.Unmarshal(data, &cs); err != nil {
+		c.Inconclusive("bad case: " + err.Error())
+		return
+	}
+	if err := kvmodel.SelfCheck(); err != nil {
+		c.Inconclusive(err.Error())
+		return
+	}
+	nt := newNotes(cs.NIdx)
+	sites := map[string]bool{"store.precommit.beforeLock": true, "store.checkPreconditions": true,
+		"indexer.indexSince.afterReadTx": true, "indexer.indexSince.beforeInsert": true}
+	h := hook.Install(&hook.Config{Seed: c.Seed*1000 + int64(len(cs.Name)) + int64(cs.NKeys), Perturb: cs.Perturb,
+		MaxSleep: time.Duration(cs.MaxSleepUs) * time.Microsecond, Sites: sites, OnNote: nt.onNote})
+	defer hook.Uninstall()
+
+	dir := c.Dir("c05-" + cs.Name)
+	defer os.RemoveAll(dir)
+	st, err := store.Open(dir, cs.options())
+	if err != nil {
+		c.Inconclusive("open: " + err.Error())
+		return
+	}
+	defer st.Close()
+	if cs.NIdx == 2 {
+		for i := 0; i < 2; i++ {
+			p := []byte(idxPrefix(i))
+			if err := st.InitIndexing(&store.IndexSpec{SourcePrefix: p, TargetPrefix: p}); err != nil {
+				c.Inconclusive("init indexing: " + err.Error())
+				return
+			}
+		}
+	}
+	rn := &runner{c: c, cs: cs, st: st, ks: newKeyspace(cs.NKeys, cs.NIdx), nt: nt, model: kvmodel.New(), byID: map[uint64]*txLog{}}
+	for round := 0; round < cs.Rounds && !rn.abort; round++ {
+		rn.round(round)
+	}
+	c.Count("revision_count_differs", hcMismatch.Load())
+	hits := h.Hits()
+	hm := map[string]uint64{}
+	for k, v := range hits {
+		hm[k] = v
+	}
+	c.Set("hook_site_hits", hm)
+	if hits["store.precommit.beforeLock"] == 0 || hits["note:store.issued"] == 0 || hits["store.checkPreconditions"] == 0 {
+		c.Inconclusive("hook sites never reached: was the harness built with -tags verif?")
+	}
+}
+
+func (rn *runner) round(round int) {
+	c, cs := rn.c, rn.cs
+	r := fw.NewRand(c.Seed, fmt.Sprintf("c05/%s/round%d", cs.Name, round))
+	nRW, nWO, nRO, txPer := 4+r.IntN(5), 1+r.IntN(2), 1+r.IntN(2), 3+r.IntN(3)
+	maint := r.IntN(100) < cs.MaintPct
+	if os.Getenv("VERIF_C05_NO_MAINT") != "" {
+		maint = false // development aid (mutant validation on a tree whose index restart is still defective)
+	}
+
+	// programs: a pure function of (seed, case, round, goroutine)
+	type worker struct {
+		name  string
+		progs []*txProg
+	}
+	var workers []worker
+	add := func(role string, n int, gen func(r *rand.Rand, vg valGen, i int) *txProg) {
+		for g := 0; g < n; g++ {
+			name := fmt.Sprintf("r%d%s%d", round, role, g)
+			pr := fw.NewRand(c.Seed, fmt.Sprintf("c05/%s/%s", cs.Name, name))
+			seq := 0
+			w := worker{name: name}
+			for i := 0; i < txPer; i++ {
+				w.progs = append(w.progs, gen(pr, valGen{name, &seq}, i))
+			}
+			workers = append(workers, w)
+		}
+	}
+	add("g", nRW, rn.ks.rwProg)
+	add("w", nWO, rn.ks.woProg)
+	add("q", nRO, rn.ks.roProg)
+
+	ex := &executor{st: rn.st, ks: rn.ks, nt: rn.nt, base: rn.st.LastCommittedTxID() + 2, round: round}
+	ex.onPanic = func(sig, text string, tl *txLog, ol *opLog) {
+		class := "reader"
+		for _, st := range ol.Op.Steps {
+			if st.K == "wset" {
+				class = "reader-open-during-set"
+			}
+		}
+		b, _ := json.MarshalIndent(map[string]any{"case": cs, "round": round, "program": tl.Prog, "rows_before_the_panic": ol.Rows}, "", " ")
+		c.Violation(class+"/panic/"+sig, fmt.Sprintf("[%s round %d] %s: scan %s panicked after %d steps: %s", cs.Name, round, tl.Prog.Name, scanName(&ol.Op), len(ol.Rows), firstLine(text)),
+			map[string][]byte{"program.json": b, "panic.txt": []byte(text)})
+	}
+	var mu sync.Mutex
+	var logs []*txLog
+	timedOut := false
+	var wg sync.WaitGroup
+	for _, w := range workers {
+		wg.Add(1)
+		go func(w worker) {
+			defer wg.Done()
+			for _, p := range w.progs {
+				// generous limit per transaction: its firing decides nothing, it lets the case end
+				ctx, cancel := context.WithTimeout(context.Background(), 30*time.Second)
+				tl := ex.run(ctx, p)
+				to := ctx.Err() != nil
+				cancel()
+				mu.Lock()
+				logs = append(logs, tl)
+				timedOut = timedOut || to
+				mu.Unlock()
+				if to {
+					return
+				}
+			}
+		}(w)
+	}
+	var mlog []maintEvent
+	stop := make(chan struct{})
+	var bg sync.WaitGroup
+	if maint {
+		bg.Add(1)
+		go func() {
+			defer bg.Done()
+			mr := fw.NewRand(c.Seed, fmt.Sprintf("c05/%s/round%d/maint", cs.Name, round))
+			for {
+				select {
+				case <-stop:
+					return
+				default:
+				}
+				ev := maintEvent{T0: rn.nt.tick()}
+				var err error
+				switch mr.IntN(3) {
+				case 0:
+					ev.Op = "compact"
+					err = rn.st.CompactIndexes()
+				case 1:
+					ev.Op = "flush"
+					err = rn.st.FlushIndexes(float32(mr.IntN(101)), mr.IntN(2) == 0)
+				default:
+					ev.Op = "flush0"
+					err = rn.st.FlushIndexes(0, false)
+				}
+				ev.T1 = rn.nt.tick()
+				if err != nil {
+					ev.Err = err.Error()
+				}
+				mlog = append(mlog, ev)
+				time.Sleep(time.Duration(mr.IntN(1500)) * time.Microsecond)
+			}
+		}()
+	}
+	t0 := time.Now()
+	wg.Wait()
+	close(stop)
+	bg.Wait()
+	if os.Getenv("VERIF_C05_DEBUG") != "" {
+		fmt.Fprintf(os.Stderr, "%s round %d: %d workers x %d txs, maint=%v: %v\n", cs.Name, round, len(workers), txPer, maint, time.Since(t0))
+	}
+	if timedOut {
+		c.Inconclusive(fmt.Sprintf("[%s round %d] a transaction did not finish within 30 s", cs.Name, round))
+		rn.abort = true
+		return
+	}
+	sort.Slice(logs, func(i, j int) bool { return logs[i].Begin < logs[j].Begin })
+	c.Count("rounds", 1)
+	if maint {
+		c.Count("rounds_with_maintenance", 1)
+	}
+	for _, ev := range mlog {
+		if ev.Err == "" {
+			c.Count("maint_"+ev.Op+"_ok", 1)
+		} else {
+			c.Count("maint_"+ev.Op+"_refused", 1)
+		}
+	}
+	rn.check(round, logs, mlog)
+}
+
+// valuesOf lists the unique values a program may write.
+func valuesOf(p *txProg) []string {
+	var out []string
+	for _, op := range p.Ops {
+		if op.Val != "" {
+			out = append(out, op.Val)
+		}
+		for _, st := range op.Steps {
+			if st.Val != "" {
+				out = append(out, st.Val)
+			}
+		}
+	}
+	return out
+}
+
+func isCtxErr(s string) bool {
+	return strings.Contains(s, context.DeadlineExceeded.Error()) || strings.Contains(s, context.Canceled.Error())
+}
+
+func isRead(k string) bool {
+	return k == "get" || k == "getf" || k == "prefix" || k == "scan" || k == "del"
+}
+
+func (rn *runner) check(round int, logs []*txLog, mlog []maintEvent) {
+	c := rn.c
+	st := rn.st
+	n := st.LastCommittedTxID()
+	if p := st.LastPrecommittedTxID(); p != n {
+		c.Inconclusive(fmt.Sprintf("[%s round %d] precommitted %d != committed %d at a quiescent point", rn.cs.Name, round, p, n))
+		rn.abort = true
+		return
+	}
+	// read reports are held back until the index itself was compared with the log: reads served by an index
+	// that lost or mislabelled entries are consequences of that, not failures of the MVCC validation
+	type report struct{ sig, detail string }
+	var pending []report
+	fail := func(sig, detail string) {
+		if strings.HasPrefix(sig, "rw-committed/") || strings.HasPrefix(sig, "snapshot-read/") {
+			pending = append(pending, report{sig, detail})
+			return
+		}
+		rn.viol(sig, detail, round, logs, mlog)
+	}
+	for _, ev := range mlog {
+		if ev.Op == "compact" && ev.Err == "" {
+			rn.compacted++
+		}
+	}
+
+	owner := map[string]*txLog{}
+	for _, tl := range logs {
+		for _, v := range valuesOf(tl.Prog) {
+			owner[v] = tl
+		}
+		c.Count("tx_"+tl.Prog.Mode+"_"+strings.SplitN(tl.Outcome, ":", 2)[0], 1)
+		if strings.HasPrefix(tl.Outcome, "error") {
+			c.Count("err_"+errKind(tl.ErrText), 1)
+		}
+	}
+	// 1. who committed what: ids are claimed by acknowledgements
+	for _, tl := range logs {
+		if tl.Outcome != "committed" {
+			continue
+		}
+		if prev, dup := rn.byID[tl.ID]; dup {
+			fail("commit/id-acknowledged-twice", fmt.Sprintf("tx id %d acknowledged to %s and to %s", tl.ID, prev.Prog.Name, tl.Prog.Name))
+			continue
+		}
+		if tl.ID <= rn.done || tl.ID > n {
+			fail("commit/id-outside-committed-range", fmt.Sprintf("%s acknowledged with id %d; ids of this round are %d..%d", tl.Prog.Name, tl.ID, rn.done+1, n))
+			continue
+		}
+		rn.byID[tl.ID] = tl
+	}
+	holder := store.NewTx(48, 40)
+	readEntries := func(id uint64) ([]*store.TxEntry, error) {
+		if err := st.ReadTx(id, false, holder); err != nil {
+			return nil, err
+		}
+		return holder.Entries(), nil
+	}
+	for id := rn.done + 1; id <= n; id++ {
+		if rn.byID[id] != nil {
+			continue
+		}
+		// nobody was told that this transaction committed: find its author through the unique values
+		es, err := readEntries(id)
+		if err != nil {
+			c.Inconclusive(fmt.Sprintf("[%s round %d] ReadTx(%d): %v", rn.cs.Name, round, id, err))
+			rn.abort = true
+			return
+		}
+		var author *txLog
+		for _, tl := range logs {
+			if tl.Outcome == "committed" {
+				continue
+			}
+			ws := txWrites(tl)
+			if len(ws) == len(es) && len(ws) > 0 {
+				same := true
+				for i, w := range ws {
+					same = same && string(es[i].Key()) == w.key && es[i].HVal() == sha256.Sum256([]byte(w.val))
+				}
+				if same && (author == nil || author.Outcome == "conflict" || author.Outcome == "cancelled") {
+					author = tl // several candidates (delete-only txs): prefer the one whose outcome explains the commit
+				}
+			}
+		}
+		switch {
+		case author == nil:
+			c.Inconclusive(fmt.Sprintf("[%s round %d] committed tx %d cannot be attributed to a logged transaction", rn.cs.Name, round, id))
+			rn.abort = true
+			return
+		case author.Outcome == "conflict" || author.Outcome == "cancelled":
+			fail("rejected-tx-left-trace/"+author.Outcome, fmt.Sprintf("%s ended with %s (%s) but its entries are committed as tx %d", author.Prog.Name, author.Outcome, author.ErrText, id))
+			author.ID = id // replay goes on with what the log holds
+			rn.byID[id] = author
+		default:
+			// a commit that failed with another error (e.g. an expired context) may have happened: the statement
+			// does not speak about it; it is adopted as committed and replayed like the others
+			c.Count("commit_error_but_committed", 1)
+			c.Note(fmt.Sprintf("%s: commit returned %q but the tx is committed as %d", author.Prog.Name, author.ErrText, id))
+			author.ID = id
+			author.Outcome = "committed"
+			rn.byID[id] = author
+		}
+	}
+
+	compactions := []maintEvent{}
+	for _, ev := range mlog {
+		if ev.Op == "compact" && ev.Err == "" {
+			compactions = append(compactions, ev)
+		}
+	}
+
+	// 2. replay in commit order
+	seenH := map[[32]byte]uint64{}
+	for id := rn.done + 1; id <= n; id++ {
+		tl := rn.byID[id]
+		view := rn.model.At(id - 1)
+		if tl.Prog.Mode == "rw" {
+			own := map[string]ownEntry{}
+			for i := range tl.Ops {
+				ol := &tl.Ops[i]
+				if isRead(ol.Op.K) {
+					c.Eval(1)
+					if d := readDiff(view, own, ol); d != "" {
+						rn.reportRead(tl, i, d, own, compactions, fail)
+					}
+				} else if ol.Op.K == "mark" && ol.Err == "" {
+					c.Eval(1)
+					rn.checkMark(tl, ol, fail)
+				}
+				applyWrite(own, ol)
+			}
+		}
+		// the transaction log holds exactly what the transaction wrote
+		ws := txWrites(tl)
+		es, err := readEntries(id)
+		if err != nil {
+			c.Inconclusive(fmt.Sprintf("[%s round %d] ReadTx(%d): %v", rn.cs.Name, round, id, err))
+			rn.abort = true
+			return
+		}
+		c.Eval(1)
+		ok := len(es) == len(ws)
+		for i := 0; ok && i < len(ws); i++ {
+			ok = string(es[i].Key()) == ws[i].key && es[i].HVal() == sha256.Sum256([]byte(ws[i].val)) && mdOf(es[i].Metadata()) == ws[i].md
+		}
+		if !ok {
+			fail("committed-tx/entries-differ-from-writes", fmt.Sprintf("tx %d (%s) holds %d entries %s; the transaction wrote %v", id, tl.Prog.Name, len(es), entryKeys(es), ws))
+		}
+		for _, e := range es {
+			seenH[e.HVal()] = id
+		}
+		for _, w := range ws {
+			if _, err := rn.model.Set([]byte(w.key), encVal(w.md, w.val), id); err != nil {
+				c.Inconclusive("model: " + err.Error())
+				rn.abort = true
+				return
+			}
+		}
+		rn.model.AdvanceTs(id)
+	}
+	first := rn.done + 1
+	rn.done = n
+
+	// 3. transactions that did not commit left no trace; snapshot reads are consistent
+	for _, tl := range logs {
+		if tl.Outcome == "committed" {
+			continue
+		}
+		if tl.Prog.Mode != "ro" {
+			c.Eval(1)
+			for _, v := range valuesOf(tl.Prog) {
+				if id, found := seenH[sha256.Sum256([]byte(v))]; found {
+					fail("rejected-tx-left-trace/"+strings.SplitN(tl.Outcome, ":", 2)[0], fmt.Sprintf("value %q of %s (%s) is stored in committed tx %d", v, tl.Prog.Name, tl.Outcome, id))
+				}
+			}
+		}
+		if tl.Outcome == "conflict" {
+			rn.classifyConflict(tl, first, n)
+		}
+		rn.checkSnapshotReads(tl, n, fail)
+	}
+	rn.fingerprints(logs)
+	why, inconclusive := rn.indexDiverged(n)
+	switch {
+	case inconclusive:
+		c.Inconclusive(fmt.Sprintf("[%s round %d] %s", rn.cs.Name, round, why))
+		rn.abort = true
+	case why != "":
+		ctx := "no-maintenance"
+		if rn.compacted > 0 {
+			ctx = "after-index-compaction"
+		}
+		rn.viol("index-diverged-from-log/"+ctx, fmt.Sprintf("with every index reporting tx %d as indexed: %s (%d read reports of this round are consequences and not listed)", n, why, len(pending)), round, logs, mlog)
+		c.Count("reads_from_diverged_index", int64(len(pending)))
+		rn.abort = true // everything read from this store from now on is a consequence
+	default:
+		for _, p := range pending {
+			rn.viol(p.sig, p.detail, round, logs, mlog)
+		}
+	}
+	if round == 0 {
+		for _, tl := range logs {
+			if tl.Prog.Mode == "rw" && tl.Outcome == "committed" && len(tl.Ops) > 2 {
+				c.Sample(map[string]any{"case": rn.cs.Name, "tx": tl.Prog.Name, "id": tl.ID, "ops": len(tl.Ops), "first_op": shape(&tl.Ops[0]), "snapshot_option": tl.Prog.Must + "/" + tl.Prog.Renew})
+				break
+			}
+		}
+	}
+}
+
+func firstLine(s string) string {
+	if i := strings.IndexByte(s, '\n'); i > 0 {
+		return s[:i]
+	}
+	return s
+}
+
+func entryKeys(es []*store.TxEntry) string {
+	var b bytes.Buffer
+	for _, e := range es {
+		fmt.Fprintf(&b, "%s ", e.Key())
+	}
+	return b.String()
+}
+
+// reportRead classifies a read of a committed transaction that differs from the state of its commit point.
+func (rn *runner) reportRead(tl *txLog, i int, d string, own map[string]ownEntry, compactions []maintEvent, fail func(sig, detail string)) {
+	ol := &tl.Ops[i]
+	kind := shape(ol)
+	class := "read-matches-no-state"
+	at := ""
+	if strings.Contains(d, "own write") {
+		class = "own-write-not-seen"
+	} else {
+		for t := tl.ID - 1; t > 0; t-- {
+			if readDiff(rn.model.At(t-1), own, ol) == "" {
+				class, at = "stale-read", fmt.Sprintf(" (the answer is the one of the state after tx %d)", t-1)
+				break
+			}
+		}
+	}
+	sig := "rw-committed/" + class + "/" + coarse(ol)
+	if class == "stale-read" {
+		// two situations are recognised from what was recorded, so that each has one signature whatever the read shape
+		idx := rn.opIndex(ol)
+		if first, wrote := rn.firstSnapshot(tl, i); rn.cs.NIdx == 2 && first != idx && wrote {
+			sig = "rw-committed/stale-read/other-index-not-validated"
+		}
+		for _, ev := range compactions {
+			if ev.T1 < tl.CommitRet {
+				sig = "rw-committed/stale-read/after-index-compaction"
+			}
+		}
+		if rn.nt.reindexedAfter(tl.CommitCall, tl.ID-1) {
+			sig = "rw-committed/stale-read/after-index-compaction"
+		}
+		if ol.Op.K == "prefix" && ol.Ref != nil && ol.Ref.Tx == 0 {
+			sig = "rw-committed/stale-read/getwithprefix-answered-by-own-write"
+		}
+	}
+	_ = kind
+	fail(sig, fmt.Sprintf("tx %d (%s, snapshot option %s/%s) committed although operation %d differs from the state produced by txs 1..%d%s: %s",
+		tl.ID, tl.Prog.Name, tl.Prog.Must, tl.Prog.Renew, i, tl.ID-1, at, d))
+}
+
+func (rn *runner) opIndex(ol *opLog) int {
+	k := ol.Op.Key
+	if k == "" {
+		k = ol.Op.Prefix
+	}
+	return rn.ks.indexOf(k)
+}
+
+// firstSnapshot tells which index served the transaction's first snapshot and whether the transaction
+// wrote into that index before operation upto.
+func (rn *runner) firstSnapshot(tl *txLog, upto int) (idx int, wrote bool) {
+	idx = 0
+	if tl.SnapT[1] != 0 && (tl.SnapT[0] == 0 || tl.SnapT[1] < tl.SnapT[0]) {
+		idx = 1
+	}
+	for i := range tl.Ops {
+		for _, w := range opWrites(&tl.Ops[i]) {
+			wrote = wrote || rn.ks.indexOf(w.key) == idx
+		}
+	}
+	return
+}
+
+// coarse names the class of a read for signatures: few classes, so that one defect has few signatures.
+func coarse(ol *opLog) string {
+	switch ol.Op.K {
+	case "get", "getf", "del":
+		if ol.Err != "" {
+			return "point-read-miss"
+		}
+		return "point-read-hit"
+	case "prefix":
+		if ol.Err != "" {
+			return "prefix-read-miss"
+		}
+		return "prefix-read-hit"
+	}
+	for _, r := range ol.Rows {
+		if r.Step == "between" {
+			return "range-scan-readbetween"
+		}
+	}
+	return "range-scan"
+}
+
+// indexDiverged compares, once every index reports n as indexed, the full history of every key in the
+// index with the reference (what the committed transactions wrote). "" = equal.
+func (rn *runner) indexDiverged(n uint64) (why string, inconclusive bool) {
+	for idx := 0; idx < rn.cs.NIdx; idx++ {
+		var prefix []byte
+		if rn.cs.NIdx == 2 {
+			prefix = []byte(idxPrefix(idx))
+		}
+		var snap *store.Snapshot
+		var err error
+		for try := 0; ; try++ {
+			ctx, cancel := context.WithTimeout(context.Background(), 30*time.Second)
+			snap, err = rn.st.SnapshotMustIncludeTxID(ctx, prefix, n)
+			cancel()
+			if err == nil {
+				break
+			}
+			// the index may be re-indexing after a compaction (its waiting hub reports more than it holds)
+			if try > 15000 || !strings.Contains(err.Error(), "ts is greater than current ts") {
+				return fmt.Sprintf("no snapshot including tx %d of index %d: %v", n, idx, err), true
+			}
+			time.Sleep(2 * time.Millisecond)
+		}
+		var keys []string
+		for _, k := range append(append(append([]string{}, rn.ks.keys...), rn.ks.tkeys...), rn.ks.miss...) {
+			if rn.ks.indexOf(k) == idx {
+				keys = append(keys, k)
+			}
+		}
+		for _, k := range keys {
+			want, _, _ := rn.model.Now().History([]byte(k), 0, false, -1)
+			refs, _, err := snap.History([]byte(k), 0, false, 1<<16)
+			if err != nil && !errors.Is(err, store.ErrKeyNotFound) {
+				snap.Close()
+				return fmt.Sprintf("History(%s): %v", k, err), true
+			}
+			ok := len(refs) == len(want)
+			for i := 0; ok && i < len(want); i++ {
+				ok = refs[i].Tx() == want[i].Ts && mdOf(refs[i].KVMetadata()) == mdKind(want[i].Value[0]) && refs[i].HVal() == sha256.Sum256(want[i].Value[1:])
+			}
+			if !ok {
+				var got, exp []string
+				at := 0
+				for at < len(refs) && at < len(want) && refs[at].Tx() == want[at].Ts {
+					at++
+				}
+				if at == len(refs) && at == len(want) {
+					snap.Close()
+					return fmt.Sprintf("index %d holds %d versions of key %s with the right tx ids but another value or metadata", idx, len(refs), k), false
+				}
+				refs, want = refs[max(0, at-3):], want[max(0, at-3):]
+				for _, r := range refs {
+					got = append(got, fmt.Sprint(r.Tx()))
+				}
+				for _, w := range want {
+					exp = append(exp, fmt.Sprint(w.Ts))
+				}
+				snap.Close()
+				return fmt.Sprintf("index %d holds versions of key %s from txs [%s]; the committed transactions wrote it in txs [%s]", idx, k, tail(got), tail(exp)), false
+			}
+		}
+		snap.Close()
+	}
+	return "", false
+}
+
+func tail(xs []string) string {
+	if len(xs) > 12 {
+		return "… " + strings.Join(xs[len(xs)-12:], " ")
+	}
+	return strings.Join(xs, " ")
+}
+
+// checkMark: a prefix fingerprint taken on a snapshot that cannot contain a later-issued tx which changed
+// the fingerprinted range, in a transaction that nevertheless committed after that tx.
+func (rn *runner) checkMark(tl *txLog, ol *opLog, fail func(sig, detail string)) {
+	snapT := tl.SnapT[rn.ks.indexOf(ol.Op.Prefix)]
+	if snapT == 0 || snapT > ol.T1 {
+		snapT = ol.T1
+	}
+	for id := tl.ID - 1; id > 0; id-- {
+		it := rn.nt.issuedAt(id)
+		if it == 0 || it < snapT {
+			break // issued before the snapshot was certainly taken: may be part of it
+		}
+		other := rn.byID[id]
+		if other == nil {
+			continue
+		}
+		for _, w := range txWrites(other) {
+			if footprint(&ol.Op, w.key) {
+				fail("rw-committed/prefix-fingerprint-stale", fmt.Sprintf("tx %d (%s) marked %s as scanned on a snapshot taken before tx %d was issued; tx %d wrote %s inside that range and committed first, yet tx %d was accepted",
+					tl.ID, tl.Prog.Name, scanName(&ol.Op), id, id, w.key, tl.ID))
+				return
+			}
+		}
+	}
+}
+
+// classifyConflict counts (never judges) whether a read conflict was needed.
+func (rn *runner) classifyConflict(tl *txLog, first, n uint64) {
+	lo, hi := uint64(0), uint64(0)
+	for id := n; id >= first && id > 0; id-- {
+		it := rn.nt.issuedAt(id)
+		if hi == 0 && it != 0 && it < tl.CommitRet {
+			hi = id
+		}
+		if it != 0 && it < tl.CommitCall {
+			lo = id
+			break
+		}
+	}
+	if lo == 0 {
+		lo = first - 1
+	}
+	if hi < lo {
+		hi = lo
+	}
+	valid := func(t uint64) bool {
+		own := map[string]ownEntry{}
+		for i := range tl.Ops {
+			ol := &tl.Ops[i]
+			if isRead(ol.Op.K) && readDiff(rn.model.At(t), own, ol) != "" {
+				return false
+			}
+			applyWrite(own, ol)
+		}
+		return true
+	}
+	a, b := valid(lo), valid(hi)
+	switch {
+	case a && b:
+		rn.c.Count("conflicts_spurious", 1)
+	case !a && !b:
+		rn.c.Count("conflicts_justified", 1)
+	default:
+		rn.c.Count("conflicts_borderline", 1)
+	}
+}
+
+// checkSnapshotReads: what a transaction read from one index before writing anything must be the
+// content of one committed state (no torn visibility).
+func (rn *runner) checkSnapshotReads(tl *txLog, n uint64, fail func(sig, detail string)) {
+	if tl.Prog.Mode == "wo" {
+		return
+	}
+	for idx := 0; idx < rn.cs.NIdx; idx++ {
+		var ops []*opLog
+		lo := uint64(0)
+		note := func(r *refLog) {
+			if r != nil && r.Tx > lo {
+				lo = r.Tx
+			}
+		}
+	collect:
+		for i := range tl.Ops {
+			ol := &tl.Ops[i]
+			switch ol.Op.K {
+			case "set", "tset", "del":
+				break collect
+			case "mark":
+				continue
+			}
+			for _, r := range ol.Rows {
+				if r.Step == "wset" {
+					break collect
+				}
+			}
+			k := ol.Op.Key
+			if k == "" {
+				k = ol.Op.Prefix
+			}
+			if rn.ks.indexOf(k) != idx || strings.HasPrefix(ol.Err, "other:") {
+				continue
+			}
+			ops = append(ops, ol)
+			note(ol.Ref)
+			for _, r := range ol.Rows {
+				note(r.Ref)
+			}
+		}
+		if len(ops) == 0 {
+			continue
+		}
+		rn.c.Eval(1)
+		found := false
+		for t := lo; t <= n && !found; t++ {
+			found = true
+			for _, ol := range ops {
+				if readDiff(rn.model.At(t), nil, ol) != "" {
+					found = false
+					break
+				}
+			}
+		}
+		if found {
+			continue
+		}
+		// torn: an entry of tx T next to an older version of a key that T also wrote
+		sig := "snapshot-read/matches-no-committed-state"
+		for _, ol := range ops {
+			if coarse(ol) == "range-scan-readbetween" && readDiff(rn.model.At(lo), nil, ol) != "" {
+				sig = "snapshot-read/readbetween-differs"
+			}
+		}
+		if other := rn.byID[lo]; other != nil {
+			for _, w := range txWrites(other) {
+				for _, ol := range ops {
+					refs := []*refLog{ol.Ref}
+					keys := []string{ol.Op.Key + ol.Key}
+					for _, r := range ol.Rows {
+						refs, keys = append(refs, r.Ref), append(keys, r.Key)
+					}
+					for j, r := range refs {
+						if r != nil && keys[j] == w.key && r.Tx < lo && sig != "snapshot-read/readbetween-differs" {
+							sig = "snapshot-read/torn-visibility"
+						}
+					}
+				}
+			}
+		}
+		var ds []string
+		for _, ol := range ops {
+			if d := readDiff(rn.model.At(lo), nil, ol); d != "" {
+				ds = append(ds, d)
+			}
+		}
+		fail(sig, fmt.Sprintf("%s (%s, %s): its reads of index %d equal no committed state %d..%d; against the state after tx %d: %s", tl.Prog.Name, tl.Prog.Mode, tl.Outcome, idx, lo, n, lo, strings.Join(ds, "; ")))
+	}
+}
+
+// fingerprints records distinct (read shape x relative order of snapshot / competing commit / its indexing / own commit x outcome).
+func (rn *runner) fingerprints(logs []*txLog) {
+	type comp struct {
+		id, issued uint64
+		keys       []string
+	}
+	var comps []comp
+	for _, tl := range logs {
+		if tl.Outcome == "committed" {
+			var ks []string
+			for _, w := range txWrites(tl) {
+				ks = append(ks, w.key)
+			}
+			comps = append(comps, comp{tl.ID, rn.nt.issuedAt(tl.ID), ks})
+		}
+	}
+	sort.Slice(comps, func(i, j int) bool { return comps[i].issued > comps[j].issued })
+	for _, tl := range logs {
+		if tl.Prog.Mode == "wo" {
+			continue
+		}
+		outcome := tl.Prog.Mode + "-" + strings.SplitN(tl.Outcome, ":", 2)[0]
+		for i := range tl.Ops {
+			ol := &tl.Ops[i]
+			if !isRead(ol.Op.K) && ol.Op.K != "mark" {
+				continue
+			}
+			k := ol.Op.Key
+			if k == "" {
+				k = ol.Op.Prefix
+			}
+			order := "nocomp"
+			for _, cp := range comps {
+				if cp.id == tl.ID || cp.issued == 0 || cp.issued > tl.CommitRet {
+					continue
+				}
+				hit := false
+				for _, key := range cp.keys {
+					hit = hit || footprint(&ol.Op, key)
+				}
+				if !hit {
+					continue
+				}
+				type ev struct {
+					n string
+					t uint64
+				}
+				evs := []ev{{"snap", tl.SnapT[rn.ks.indexOf(k)]}, {"comp", cp.issued}, {"own", tl.CommitCall}}
+				if it := rn.nt.indexedAt(cp.id); it != 0 {
+					evs = append(evs, ev{"idx", it})
+				}
+				sort.Slice(evs, func(a, b int) bool { return evs[a].t < evs[b].t })
+				var names []string
+				for _, e := range evs {
+					names = append(names, e.n)
+				}
+				order = strings.Join(names, "<")
+				break
+			}
+			rn.c.Distinct(shape(ol) + "|" + order + "|" + outcome)
+		}
+	}
+}
+
+func Run(c *fw.Ctx) {
+	c.Rule = "PRNG transaction programs (get/filtered get/prefix get/range scans with bounds, offsets, resets, early termination and ReadBetween/prefix fingerprints/set/delete/transient set) run by 4-8 goroutines per round next to write-only committers, read-only readers, index flush/compaction and hook-point perturbation, snapshots arbitrarily stale; an evaluation is one logged read of a committed RW tx re-executed on the reference state of ids 1..id-1 plus its own writes (or one tx-log comparison, one no-trace check of a rejected tx, one snapshot-consistency check); distinct = (observed read shape x order of {snapshot taken, competing commit issued, its indexing, own commit} by tickets and hook notes x outcome)"
+	c.Assume("commit order is the header id; a transaction acknowledged with a header is committed")
+	c.Assume("Reset of a reader may or may not re-arm its offset (both accepted); keys written while a reader is open may or may not show up in that pass")
+	c.Assume("reads of two different indexes by one read-only transaction need not come from the same instant")
+	r := c.Rand("c05/cases")
+	ncases := c.N(16, 400)
+	rounds := c.N(19, 20)
+	var cases [][]byte
+	for i := 0; i < ncases; i++ {
+		b, _ := json.Marshal(genCase(r, i, rounds))
+		cases = append(cases, b)
+	}
+	c.RunIsolated("c05-case", cases, fw.CasesOpts{Workers: 16, CaseTimout: 10 * time.Minute})
+}
+
+var _ = errors.Is
